@@ -117,7 +117,7 @@ def main(inp, outp):
         inc = float(rng.uniform(0.05, 3.09))
         kep = [a, e, inc, float(rng.uniform(0, TWO_PI)), float(rng.uniform(0, TWO_PI)), float(rng.uniform(0, TWO_PI))]
         T = TWO_PI * math.sqrt(a ** 3 / Earth.mu)
-        frac = float(rng.uniform(0.05, 0.9))
+        frac = float(rng.uniform(0.05, 0.9)) if _ % 2 else float(rng.uniform(0.02, 0.12))      # every other transfer is a short arc
         o0 = Orbit(kep, Date(2020, 1, 1), "keplerian", "EME2000", "Kepler")
         o1 = o0.propagate(o0.date + timedelta(seconds=frac * T))
         c0, c1 = np.asarray(o0.copy(form="cartesian"), float), np.asarray(o1.copy(form="cartesian"), float)
